@@ -287,10 +287,25 @@ def run(tier, seed):
         rpool = ThreadPoolExecutor(max_workers=4)
         for gi, gmp in enumerate(("1", "2", "4", "16")):
             sub = list(range(ncor)) + [i for i in alli if i >= ncor and i % 4 == gi][:nr]
-            fut = rpool.submit(vlib.run_lines, gvh_race, [], [lines[i] for i in sub], 3000,
-                               {"GOMAXPROCS": gmp, "GORACE": "halt_on_error=0"})
+            def race_run(sub=sub, gmp=gmp):
+                o_all, se_all, rc_all = [], "", 0
+                for j in range(0, len(sub), 150):
+                    rc, o, se = vlib.run_lines(gvh_race, [], [lines[i] for i in sub[j:j + 150]], 3000,
+                                               {"GOMAXPROCS": gmp, "GORACE": "halt_on_error=0"})
+                    o_all += o
+                    se_all += se
+                    rc_all = rc_all or rc
+                    if len(o) < len(sub[j:j + 150]):
+                        break
+                return rc_all, o_all, se_all
+            fut = rpool.submit(race_run)
             race_jobs.append((gmp, sub, fut))
-    outs = vlib.run_lines_resilient(gvh, [], lines, per_case_timeout=60, env={"GOMAXPROCS": "4"})
+    # the harness process keeps the runtimes it created alive, so the sweep is fed in slices (3 processes at a time)
+    step = 300
+    slices = [lines[i:i + step] for i in range(0, len(lines), step)]
+    with ThreadPoolExecutor(max_workers=3) as sp:
+        parts = list(sp.map(lambda sl: vlib.run_lines_resilient(gvh, [], sl, per_case_timeout=60, env={"GOMAXPROCS": "4"}), slices))
+    outs = [l for part in parts for l in part]
     evaluate(outs, "plain/GOMAXPROCS=4", alli)
     ck.log("plain build: %d pairs done" % len(outs))
     races = {}
